@@ -236,7 +236,7 @@ impl Check for C03 {
         for u in units {
             for &n in &reps {
                 let body: String = u.repeat(n);
-                for (pre, post) in [("print(\"S\")\n", "\nprint(\"E\")\n"), ("print(\"S\")\nx := 1", "\n")] {
+                for (pre, post) in [("print(\"S\")\n", "\nprint(\"E\")\n"), ("print(\"S\")\nx := 1", "\n"), ("print(\"S\")\n", "\n)\n"), ("print(\"S\")\n", "\n&")] {
                     let src = format!("{}{}{}", pre, body, post);
                     let mut c = Case::new(src.clone(), 7, format!("{:?} repeated {} times", u, n));
                     c.mode = Mode::Tokens;
